@@ -501,6 +501,17 @@ def run(tier="quick", seed=0, repo="/repo"):
             for name, (make, k) in scorer_table().items():
                 for p in (1, 3):
                     scorer_grid(rec, failing_cells, name, make, k, data[p], (n, p, rep))
+            # large-magnitude integer data (multiples of 2**25: every sum and square is exact in float64 and within int64, but squares of partial sums
+            # exceed the int64 range): integer arithmetic on the data must not leak into the scores
+            if n == 20 and rep == 0:
+                big = {p_: (dataset(rng, n, p_) + 2.0) * float(2 ** 25) for p_ in (1, 3)}
+                for name in ("L2Cost", "L2Saving", "CUSUM", "ChangeScore(L2Cost)", "Saving(L2Cost(param=0.0))"):
+                    make, k = scorer_table()[name]
+                    for p_ in (1, 3):
+                        scorer_grid(rec, failing_cells, name, make, k, big[p_], (n, p_, "big"))
+                for name in ("PELT", "CAPA"):
+                    make, multivariate = detector_table(tier)[name]
+                    grid_for(rec, failing_cells, name, make, big[1], (n, 1, "big"))
     bound = (f"{len(detector_table(tier))} detector configurations (7 classes) and 10 scorer configurations (8 classes) x n in {list(ns)} x "
              f"p in (1,3) x {reps} integer-valued data set(s) x 64 cells (p=1) / 32 cells (p=3) x 6 entry points (detectors) / evaluate (scorers)")
     return rec.result(RULE, bound, exhaustive=True, failing_cells=failing_cells)
